@@ -25,6 +25,20 @@ theorem rules_add (db : DB) (rs : List Rule) (har : ∀ r ∈ rs, ArityOK db r) 
     evalUnion db (rs.map compile) = denoteRules db rs :=
   compile_rules_correct db rs har
 
+/-- **… with arithmetic in heads and comparisons in bodies**: heads are arithmetic expressions (+, -, *) over
+variables and constants, bodies are atoms plus comparisons (<, <=, >, >=, !=, ==) between such expressions. -/
+theorem compile_arith_cmp_correct_partial (db : DB) (r : XRule)
+    (har : ∀ a ∈ r.body, ∀ row ∈ db a.pred, row.length = a.args.length) :
+    evalXSelect db (xcompile r) = xdenote db r :=
+  xcompile_correct db r har
+
+example :
+    let db : DB := fun p => if p = "a" then [[1, 2], [1, 2], [3, 1], [2, 5]] else []
+    let r : XRule := ⟨[.bin .add (.term (.var 0)) (.term (.const 1)), .bin .mul (.term (.var 1)) (.term (.var 0))],
+                      [⟨"a", [.var 0, .var 1]⟩], [(.lt, .term (.var 0), .term (.var 1)), (.ne, .bin .sub (.term (.var 1)) (.term (.var 0)), .term (.const 3))]⟩
+    xdenote db r = [[2, 2], [2, 2]] ∧ evalXSelect db (xcompile r) = [[2, 2], [2, 2]] := by
+  decide
+
 theorem solve_append (db : DB) : ∀ (as bs : List Atom) (env : Env),
     solve db (as ++ bs) env = (solve db as env).flatMap (solve db bs)
   | [], bs, env => by simp [solve]
